@@ -20,7 +20,7 @@
     builders (nil / empty QUICFrames) the model computes the payload itself.
     Executable definitions only. *)
 From Coq Require Import List ZArith Bool.
-From V Require Import Gen.Params Lib.Hex Wire.Varint Wire.Headers PktProt.PktNum.
+From V Require Import Gen.Params Lib.Hex Wire.Varint Wire.Headers Wire.FramesBase Wire.FramesStream PktProt.PktNum.
 Import ListNotations.
 Open Scope Z_scope.
 
@@ -123,6 +123,19 @@ Definition initialExt (ver : Z) (dcid scid token : list Z) (lf pn pnLen : Z) : e
 
 Definition initialHeaderBytes (ver : Z) (dcid scid token : list Z) (lf pn pnLen : Z) : Z * list Z :=
   append_ext (initialExt ver dcid scid token lf pn pnLen) ver.
+
+(** ** the frame payload of a pass-through datagram (nil / empty QUICFrames builder:
+    MarshalInitialPacketPayload re-emits the popped CRYPTO frames; appendInitialPacketPayload adds
+    exact-size PADDING), bytes via C08's wire.CryptoFrame model [body_crypto] *)
+Definition zslice (data : list Z) (off len : Z) : list Z := firstn (Z.to_nat len) (skipn (Z.to_nat off) data).
+
+(** the wire image of one popped CRYPTO frame (offset, length) over the stream [data] *)
+Definition cryptoEnc (data : list Z) (f : Z * Z) : list Z :=
+  FT_Crypto :: body_crypto (fst f) (zslice data (fst f) (snd f)).
+
+(** payload of a pass-through datagram: the popped frames, then [pad] bytes of PADDING *)
+Definition passPayload (data : list Z) (frames : list (Z * Z)) (pad : Z) : list Z :=
+  concat (map (cryptoEnc data) frames) ++ repeat 0 (Z.to_nat pad).
 
 (** ** wire.CryptoFrame *)
 Definition maxDataLen (off m : Z) : Z :=
